@@ -4,6 +4,9 @@ CLAIMED = {
  "C09": {"text": "Every path of KroneckerDelta.preferred_and_killable / indices_contain_equal_information of the real source is executed symbolically over the full abstract index domain (space x spin of both indices) and the range-lattice postconditions (preferred carries at least as much information; None only for incomparable ranges; equal information iff equal ranges) are discharged by z3 - complete for the finite domain. evaluate_deltas' substitution side conditions are obligations of its contract.",
          "design_ref": "5.C09", "technique": TECH,
          "note": "assumed: sympy subs/atoms contracts, delta-elimination lemma (math), Index.space/spin reflect the sympy assumptions; bounded stand-in evaluate_deltas.value labelled bounded"},
+ "C01": {"text": "The adcgen-owned core of the Wick evaluation is proved from the real source for all inputs: _contraction equals the two-operator vacuum expectation value on the full abstract domain (operator kinds x index spaces, incl. the fresh-index delta for general indices); the counting prefilter computes exactly its specification (loop invariant over an arbitrary-length operator string, with the aliasing `counter = create`); _contract_operator_string computes the first-operator Wick expansion (loop invariant: accumulated sum = prefix of the expansion; sign rule, slice, recursion on the remainder with a decreasing measure).",
+         "design_ref": "5.C01", "technique": TECH,
+         "note": "Wick's theorem is the SPECIFICATION of vev (trusted); the prefilter-implies-zero lemma is proved only in its inductive step; sympy Add/Mul/doit/expand assumed; `wicks` glue, Rules.apply and NO groups only by the bounded stand-in wicks.value (explicit Fock-space evaluation, <= 6 operators); known finding: NO groups with general indices crash"},
 }
 NOT_APPLICABLE = {
  "C12": "identity between ~25 hand-typed closed formulas and derived quantities: a property of data decided by computation, not a pre/postcondition of any function within the verifier's reach (DESIGN section 6)",
